@@ -438,7 +438,11 @@ func (c *otApplyContext) matchPropertiesMark(glyph GID, glyphProps uint16, match
 	/* If using mark filtering sets, the high uint16 of
 	 * matchProps has the set index. */
 	if uint16(matchProps)&font.UseMarkFilteringSet != 0 {
-		_, has := c.gdef.MarkGlyphSetsDef.Coverages[matchProps>>16].Index(gID(glyph))
+		sets := c.gdef.MarkGlyphSetsDef.Coverages
+		if setIndex := int(matchProps >> 16); setIndex >= len(sets) || sets[setIndex] == nil { // invalid font
+			return false
+		}
+		_, has := sets[matchProps>>16].Index(gID(glyph))
 		return has
 	}
 
